@@ -113,8 +113,9 @@ func normValue(d *TDesc, v reflect.Value, useTags bool) string {
 // that (the C16 cases set neither OmitNil nor OmitEmpty): without UseTags every exported field is
 // written; with UseTags (always on the Marshal route: oj.Marshal runs under ojg.GoOptions) a field
 // tagged omitempty is dropped when empty. A field tagged "-" is never read back (and the generator
-// leaves it zero). An embedded struct contributes its fields, an embedded pointer those of its
-// target unless nil.
+// leaves it zero); a nil pointer or interface field is written as null, and recomp leaves the field
+// of a null member alone (`has && m != nil`) without walking to it, so it allocates nothing either.
+// An embedded struct contributes its fields, an embedded pointer those of its target unless nil.
 func noMember(d *TDesc, v reflect.Value, useTags bool) bool {
 	if d.Kind != "struct" {
 		return false
@@ -140,6 +141,9 @@ func noMember(d *TDesc, v reflect.Value, useTags bool) bool {
 		}
 		if f.Tag == "-" {
 			continue // never read back: indexType honours the tag whatever the options of the writer say
+		}
+		if k := fv.Kind(); (k == reflect.Ptr || k == reflect.Interface) && fv.IsNil() {
+			continue // written as null, if at all: recomp skips a null member before it walks to the field
 		}
 		if !useTags {
 			return false
